@@ -208,4 +208,72 @@ theorem mem_due_of_queued_dial_failure (t : T) (id : Id) (pre post : List ConnRe
   simp only [due, hc, List.mem_append]
   exact Or.inr (key pre t.dials hd hpre)
 
+/-! ## `TcpTransport::open`: what its future resolves to (round gtcp) -/
+
+theorem openRun_res (id : Id) (timeout deadline : Nat) (addrs : List AddrKind) (el : Nat) :
+    ((openRun id timeout deadline addrs el).1 = .failed id ∨ (openRun id timeout deadline addrs el).1 = .connected id) ∧
+    (AddrKind.answer ∉ addrs → (openRun id timeout deadline addrs el).1 = .failed id) := by
+  induction addrs generalizing el with
+  | nil => simp [openRun]
+  | cons a rest ih =>
+    cases a with
+    | stall =>
+      simp only [openRun]
+      split
+      · simp
+      · have := ih (el + timeout)
+        simp only [List.mem_cons, reduceCtorEq, false_or]
+        exact this
+    | refuse =>
+      simp only [openRun, List.mem_cons, reduceCtorEq, false_or]
+      exact ih el
+    | answer => simp [openRun]
+
+theorem drain_failed (id : Id) :
+    drain 2 { raw := [.failed id], handles := [(id, false)] } = ([.openFailure id], {}) := by
+  simp [drain, pollNext, pollRaw, lookupH, eraseH, pollConns]
+
+theorem drain_connected (id : Id) :
+    drain 2 { raw := [.connected id], handles := [(id, false)] } = ([.opened id], { opened := [id] }) := by
+  simp [drain, pollNext, pollRaw, lookupH, eraseH, pollConns, insertId]
+
+theorem drain_canceled (id : Id) :
+    drain 2 { raw := [.canceled id], handles := [(id, true)] } = ([], {}) := by
+  simp [drain, pollNext, pollRaw, eraseH, pollConns]
+
+theorem afterOpen_outcome (id : Id) (timeout mult : Nat) (addrs : List AddrKind) :
+    openFuture id timeout mult addrs none ≠ .canceled id ∧
+    ((drain 2 (afterOpen id timeout mult addrs none)).1 = [.openFailure id] ∨
+      (drain 2 (afterOpen id timeout mult addrs none)).1 = [.opened id]) ∧
+    (drain 2 (afterOpen id timeout mult addrs none)).2.handles = [] ∧
+    size (drain 2 (afterOpen id timeout mult addrs none)).2 = 0 ∧
+    (AddrKind.answer ∉ addrs → (drain 2 (afterOpen id timeout mult addrs none)).1 = [.openFailure id]) := by
+  obtain ⟨h1, h2⟩ := openRun_res id timeout (mult * timeout) addrs 0
+  have hf : openFuture id timeout mult addrs none = (openRun id timeout (mult * timeout) addrs 0).1 := rfl
+  rcases h1 with h | h
+  · have ha : afterOpen id timeout mult addrs none = { raw := [.failed id], handles := [(id, false)] } := by
+      simp [afterOpen, hf, h]
+    rw [ha, drain_failed, hf, h]
+    simp [size]
+  · have ha : afterOpen id timeout mult addrs none = { raw := [.connected id], handles := [(id, false)] } := by
+      simp [afterOpen, hf, h]
+    rw [ha, drain_connected, hf, h]
+    refine ⟨by simp, by simp, rfl, by simp [size], ?_⟩
+    intro hn
+    rw [h2 hn] at h
+    simp at h
+
+theorem openFuture_canceled (id : Id) (timeout mult : Nat) (addrs : List AddrKind) (c : Option Nat)
+    (h : openFuture id timeout mult addrs c = .canceled id) :
+    ∃ at_, c = some at_ ∧ at_ < (openRun id timeout (mult * timeout) addrs 0).2 := by
+  obtain ⟨h1, _⟩ := openRun_res id timeout (mult * timeout) addrs 0
+  cases c with
+  | none => simp only [openFuture] at h; rcases h1 with h' | h' <;> rw [h'] at h <;> simp at h
+  | some a =>
+    simp only [openFuture] at h
+    split at h
+    · exact ⟨a, rfl, by assumption⟩
+    · rcases h1 with h' | h' <;> rw [h'] at h <;> simp at h
+
+
 end Litep2pVerif.Tcp.Poll
